@@ -18,8 +18,9 @@ Other == <<<<95, 115, 118, 99, 50>>, <<95, 116, 99, 112>>, <<108, 111, 99, 97, 1
 InstNames == {<<97>>, <<98>>, <<97, 98>>, <<112, 49>>, <<109, 101>>, <<65>>, <<65, 98>>, <<77, 101>>}
 Ips == {<<4, 10, 0, 0, 1>>, <<4, 10, 0, 0, 2>>, <<6, 0, 0, 0, 0, 0, 0, 0, 0, 0, 0, 0, 0, 0, 0, 0, 1>>, <<6, 0, 0, 0, 0, 0, 0, 0, 0, 0, 0, 255, 255, 10, 0, 0, 1>>}
 Ports == {80, 8080}
-AKeys == {<<107>>, <<112, 97, 116, 104>>, <<97, 98>>}
-AVals == {<<"none">>, <<"some", <<>>>>, <<"some", <<118>>>>, <<"some", <<120, 61, 121>>>>}
+\* k, path, ab, and keys / values with leading, trailing and lone spaces (attribute text is carried verbatim)
+AKeys == {<<107>>, <<112, 97, 116, 104>>, <<97, 98>>, <<107, 32>>, <<32, 97, 98>>}
+AVals == {<<"none">>, <<"some", <<>>>>, <<"some", <<118>>>>, <<"some", <<120, 61, 121>>>>, <<"some", <<32, 118, 32>>>>, <<"some", <<32>>>>}
 
 \* every instance name is announced at most once per history (what a re-announcement with a different
 \* description should merge to is not specified by the property)
